@@ -43,6 +43,8 @@ type Config struct {
 	PCTDepth int    `json:"pct_depth"`
 	// TargetSite (strategy "target"): the site in front of which other tasks are preferred.
 	TargetSite int `json:"target_site,omitempty"`
+	// TargetNth > 0: only the n-th arrival of any task at the target site is held back, and hard.
+	TargetNth int `json:"target_nth,omitempty"`
 	// ColdQueueLocks: lock operations on sites marked cold by the rewriter
 	// (PacketQueue's private mutex) are not scheduling points.
 	ColdQueueLocks bool `json:"cold_queue_locks"`
@@ -136,7 +138,10 @@ type Sim struct {
 	back  chan struct{}
 	// pairA, pairB: the two tasks running at once after a rendezvous (nil otherwise)
 	pairA, pairB *Task
-	lastRan      *Task
+	// targeted preemption: arrivals at the target site so far, and the task being held back
+	targetArrivals int
+	heldTask       *Task
+	lastRan        *Task
 
 	locks  map[uintptr]*lockState
 	onces  map[uintptr]*onceState
@@ -408,6 +413,22 @@ func (s *Sim) pick(cands []*Task, nev int) int {
 	}
 	switch s.cfg.Strategy {
 	case "target":
+		if s.cfg.TargetNth > 0 {
+			// the task that made the n-th arrival at the target site is held back hard while anything else can run:
+			// the others do all they can right in front of that one operation
+			held := -1
+			for i, t := range cands {
+				if t == s.heldTask {
+					held = i
+				}
+			}
+			return s.choose(n, func(i int) int {
+				if held >= 0 && i != held {
+					return 40
+				}
+				return 1
+			})
+		}
 		// uniform walk, but a task that stands at the target site is held back (three times out of four) while
 		// anything else can run: whatever the others were about to do lands right in front of that operation
 		at := false
@@ -556,8 +577,17 @@ func (s *Sim) afterRun(t *Task) {
 		s.applyNote(t, &t.notes[i])
 	}
 	t.notes = t.notes[:0]
+	if t == s.heldTask {
+		s.heldTask = nil // it has run: the hold is over
+	}
 	if t.state == stWaiting {
 		s.enterWait(t)
+		if s.cfg.TargetNth > 0 && t.req.site == s.cfg.TargetSite && s.cfg.TargetSite != 0 {
+			s.targetArrivals++
+			if s.targetArrivals == s.cfg.TargetNth {
+				s.heldTask = t
+			}
+		}
 	}
 }
 
